@@ -27,6 +27,24 @@ PLY_MAX = 1000.0
 CAP = 0.7
 
 
+def _is_side_to_move(f, e):
+    """e is Position::color() of the searched position, read through locals introduced since the reference"""
+    from rules.effects import single_def
+    e = strip_casts(e)
+    for _ in range(4):
+        if e.get('callee', {}).get('n') == 'engine::Position::color':
+            return True
+        r = e.get('ref', {})
+        if e['k'] == 'DeclRefExpr' and r.get('k') == 'Local':
+            d = single_def(f, r['id'])
+            if d is None:
+                return False
+            e = strip_casts(d)
+            continue
+        return False
+    return False
+
+
 def check(ctx):
     p = ctx.prog()
     calc = p.fn('engine::TimeManager::calculateTime')
@@ -110,7 +128,7 @@ def check(ctx):
         if v is not None and v.get('callee', {}).get('n') == calc.name:
             seen_call = True
             a = kids(v)[1:]
-            side_ok = strip_casts(a[1]).get('callee', {}).get('n') == 'engine::Position::color'
+            side_ok = _is_side_to_move(f, a[1])
             gf = guard_facts(f, n)
             arm_ok = False
             for cond, truth in gf:
